@@ -25,10 +25,17 @@ def echoes (c : Conn) (m : Msg) : Bool :=
 theorem finalized_ctl (env : Env) (c : Conn) (m : Msg) :
     (finalized env c m).1.state = c.state ∧ (finalized env c m).1.sock = c.sock ∧
     (finalized env c m).1.hb = c.hb ∧ (finalized env c m).1.testReqId = c.testReqId ∧
-    (finalized env c m).1.lastTime = env.now ∧ NoDisc (finalized env c m).2 ∧
+    (c.state = st_ACTIVE → (finalized env c m).1.lastTime = env.now) ∧ NoDisc (finalized env c m).2 ∧
     writes (finalized env c m).2 = [] := by
   unfold finalized
-  cases c.journal.persist .inbound c.sess.nextIn m <;> simp [NoDisc, isDisc, writes]
+  cases c.journal.persist .inbound c.sess.nextIn m <;>
+    simp +contextual [NoDisc, isDisc, writes, st_ACTIVE, st_DISCONNECTED_BROKEN_CONN]
+
+/-- on a connection the dispatch has just disconnected `_finalize_message` leaves `lastTime` alone (fix 5623bd4) -/
+theorem finalized_lastTime_down (env : Env) (c : Conn) (m : Msg) (hd : c.state = st_DISCONNECTED_BROKEN_CONN) :
+    (finalized env c m).1.lastTime = c.lastTime := by
+  unfold finalized
+  cases c.journal.persist .inbound c.sess.nextIn m <;> simp [hd]
 
 /-- a benign frame on a logged-on connection: still logged on, `lastTime = now`, the outstanding id is
 cleared exactly by an echo, nothing is torn down, and the only frame possibly written is the Heartbeat
@@ -44,19 +51,19 @@ theorem recv_benign (sr : Msg → Bool) (env : Env) (h : Int) (c : Conn) (m : Ms
     | none =>
       rw [recv_heartbeat_idle sr env c m hu.active hb.inseq hm (Or.inl ht)]
       obtain ⟨f1, f2, f3, f4, f5, f6, f7⟩ := finalized_ctl env c m
-      refine ⟨⟨f1.trans hu.active, f2.trans hu.sock, f3.trans hu.hb⟩, f5, ?_, f6, by simp [f7]⟩
+      refine ⟨⟨f1.trans hu.active, f2.trans hu.sock, f3.trans hu.hb⟩, f5 hu.active, ?_, f6, by simp [f7]⟩
       simp [f4, ht, echoes]
     | some tid =>
       cases hv : m.get? tTestReqID with
       | none =>
         rw [recv_heartbeat_idle sr env c m hu.active hb.inseq hm (Or.inr hv)]
         obtain ⟨f1, f2, f3, f4, f5, f6, f7⟩ := finalized_ctl env c m
-        refine ⟨⟨f1.trans hu.active, f2.trans hu.sock, f3.trans hu.hb⟩, f5, ?_, f6, by simp [f7]⟩
+        refine ⟨⟨f1.trans hu.active, f2.trans hu.sock, f3.trans hu.hb⟩, f5 hu.active, ?_, f6, by simp [f7]⟩
         simp [f4, ht, echoes, hv]
       | some v =>
         rw [recv_heartbeat_echo sr env c m tid v hu.active hb.inseq hm ht hv (hb.rightId hm tid v ht hv)]
         obtain ⟨f1, f2, f3, f4, f5, f6, f7⟩ := finalized_ctl env { c with testReqId := none } m
-        refine ⟨⟨f1.trans hu.active, f2.trans hu.sock, f3.trans hu.hb⟩, f5, ?_, f6, by simp [f7]⟩
+        refine ⟨⟨f1.trans hu.active, f2.trans hu.sock, f3.trans hu.hb⟩, f5 hu.active, ?_, f6, by simp [f7]⟩
         simp [f4, echoes, hm, hv, ht]
   · have hne : (m.mtype == mHeartbeat) = false := by simpa using hm
     have hech : echoes c m = false := by simp [echoes, hne]
@@ -72,7 +79,8 @@ theorem recv_benign (sr : Msg → Bool) (env : Env) (h : Int) (c : Conn) (m : Ms
           (∀ f ∈ writes (e :: (finalized env c1 m).2), f.mtype = mHeartbeat) := by
         intro c1 g1 g2 g3 g4 e he hw
         obtain ⟨f1, f2, f3, f4, f5, f6, f7⟩ := finalized_ctl env c1 m
-        refine ⟨⟨(f1.trans g1).trans hu.active, (f2.trans g2).trans hu.sock, (f3.trans g3).trans hu.hb⟩, f5,
+        refine ⟨⟨(f1.trans g1).trans hu.active, (f2.trans g2).trans hu.sock, (f3.trans g3).trans hu.hb⟩,
+          f5 (g1.trans hu.active),
           by simp [f4, g4], ?_, ?_⟩
         · intro x hx
           rcases List.mem_cons.mp hx with rfl | hx
@@ -91,7 +99,7 @@ theorem recv_benign (sr : Msg → Bool) (env : Env) (h : Int) (c : Conn) (m : Ms
       have hq' : (m.mtype == mTestRequest) = false := by simpa using hq
       rw [recv_app sr env c m hu.active hb.inseq ⟨hb.routine, hq', hne⟩, hech]
       obtain ⟨f1, f2, f3, f4, f5, f6, f7⟩ := finalized_ctl env c m
-      refine ⟨⟨f1.trans hu.active, f2.trans hu.sock, f3.trans hu.hb⟩, f5, by simp [f4], ?_, ?_⟩
+      refine ⟨⟨f1.trans hu.active, f2.trans hu.sock, f3.trans hu.hb⟩, f5 hu.active, by simp [f4], ?_, ?_⟩
       · intro x hx
         rcases List.mem_cons.mp hx with rfl | hx
         · rfl
